@@ -408,6 +408,24 @@ def _pure_value_memo(ci, attr: str) -> bool:
     return reads > 0 and stores > 0
 
 
+def instance_records_rule(idx: Index, res: Result, rule: str) -> None:
+    """Every record put into the instance table carries a bptk object the factory made *for that record* (shared by C16 and C20: a
+    batch restore that copies one template object gives every restored instance the same scenarios, simulations and memo)."""
+    nrec = 0
+    # (wherever the record is built: a method of the manager, or a batch helper of it that the view shows inside its callers)
+    for fi in [f_ for f_ in idx.all_funcs("BPTK_Py/server/") if not getattr(f_.node, "_absorbed", False)]:
+        assigns = single_assignments(fi.node)
+        for d in [n for n in walk_no_nested(fi.node) if isinstance(n, ast.Dict) and {"instance", "time"} <= {const_str(k) for k in n.keys}]:
+            nrec += 1
+            v = d.values[[const_str(k) for k in d.keys].index("instance")]
+            vals = assigns.get(v.id, []) if isinstance(v, ast.Name) else [v]
+            ok = bool(vals) and all(isinstance(x, ast.Call) and call_name(x) == "_make_bptk" for x in vals)
+            res.check(rule, "%s: record['instance'] is a factory product made here" % fi.qual, ok, fi.loc(d), fi.qual, src(v),
+                      "%s stores %s as an instance: not a bptk object created by the factory for this record"
+                      % (fi.qual, "; ".join(src(x)[:40] for x in vals) or src(v)), key="%s/%s/record" % (rule, fi.qual))
+    res.floor("instance records built", nrec, 2)
+
+
 def restore_function(idx: Index) -> FuncInfo:
     """The method of the server class that carries out the on-demand restore (the one that calls reconstruct_instance): pinned
     _ensure_instance_exists, or the helper it hands the work to."""
@@ -1607,6 +1625,20 @@ def check_c17(idx: Index, tier: str, res: Result) -> None:
         res.check("UNITS", "unit %s wired to its own input key" % k, reads_own and not others, create.loc(v), create.qual,
                   "%r: %s" % (k, src(v)), "timeout unit %r is filled from %s" % (k, others or "nothing"),
                   key="UNITS/create_instance/%s" % k)
+        # a unit the request leaves out counts as 0 (the timeout that was asked for is the sum of the units that were given)
+        fallback = None
+        if isinstance(v, ast.IfExp):
+            fallback = v.orelse if str_consts_in(v.body) else v.body
+        elif isinstance(v, ast.Call) and call_name(v) == "get" and len(v.args) == 2:
+            fallback = v.args[1]
+        elif isinstance(v, ast.Call) and call_name(v) == "get" and len(v.args) == 1:
+            fallback = ast.Constant(value=None)
+        elif isinstance(v, ast.BoolOp) and isinstance(v.op, ast.Or):
+            fallback = v.values[-1]
+        if fallback is not None:
+            res.check("UNITS", "an omitted unit %s counts as 0" % k, const_int(fallback) == 0 or (isinstance(fallback, ast.Constant) and fallback.value == 0), create.loc(v), create.qual,
+                      "%r: %s" % (k, src(v)), "a timeout given without %r gets %s for it instead of 0: the instance lives longer than the timeout that was "
+                      "asked for" % (k, src(fallback)), key="UNITS/create_instance/%s-default" % k)
     # the record stored for the instance carries that dict and a fresh timestamp
     recs = [n for n in walk_no_nested(create.node) if isinstance(n, ast.Dict) and {"instance", "time", "timeout"} <= {const_str(k) for k in n.keys}]
     ok = False
@@ -1673,7 +1705,7 @@ def check_c17(idx: Index, tier: str, res: Result) -> None:
                     res.check("WIRING", "%s: %s <- .%s" % (fi.qual, p, attr), expect.get(p) == attr, fi.loc(c), fi.qual, src(c)[:120],
                               "reconstruct_instance parameter %s receives %s" % (p, src(a)),
                               key="WIRING/%s/%s" % (fi.qual, p))
-    res.floor("reconstruct_instance call sites", nsite, 3)
+    res.floor("reconstruct_instance call sites", nsite, 1)
     rrecs = [n for n in walk_no_nested(recon.node) if isinstance(n, ast.Dict) and {"instance", "time", "timeout"} <= {const_str(k) for k in n.keys}]
     ok = bool(rrecs) and all(isinstance(v, ast.Name) and v.id == const_str(k) for rd in rrecs for k, v in zip(rd.keys, rd.values))
     res.check("WIRING", "reconstruct_instance stores time/timeout/instance under their own keys", ok, recon.loc(), recon.qual,
@@ -1780,19 +1812,7 @@ def check_c16(idx: Index, tier: str, res: Result) -> None:
               and isinstance(n.targets[0], ast.Attribute)]
     res.check("FACTORY", "no factory product cached on the manager", not cached, mk.loc(), "InstanceManager", norm_stmt(cached[0]) if cached else "",
               "a factory product is cached on the instance manager", key="FACTORY/cached")
-    nrec = 0
-    for name, defs in im.methods.items():
-        fi = defs[-1]
-        assigns = single_assignments(fi.node)
-        for d in [n for n in walk_no_nested(fi.node) if isinstance(n, ast.Dict) and "instance" in [const_str(k) for k in n.keys]]:
-            nrec += 1
-            v = d.values[[const_str(k) for k in d.keys].index("instance")]
-            vals = assigns.get(v.id, []) if isinstance(v, ast.Name) else [v]
-            ok = bool(vals) and all(isinstance(x, ast.Call) and call_name(x) == "_make_bptk" for x in vals)
-            res.check("FACTORY", "%s: record['instance'] is a factory product made here" % fi.qual, ok, fi.loc(d), fi.qual, src(v),
-                      "%s stores %s as an instance: not a bptk object created by the factory for this record"
-                      % (fi.qual, "; ".join(src(x)[:40] for x in vals) or src(v)), key="FACTORY/%s/record" % fi.qual)
-    res.floor("instance records built", nrec, 2)
+    instance_records_rule(idx, res, "FACTORY")
     instance_timeout_is_own(idx, res, "FACTORY")
     # what a factory registers (model objects, base dictionaries) may be one object for all the instances it builds: the scenario layer
     # never writes such an object in place and never hands it to a scenario as its own
